@@ -1125,6 +1125,13 @@ def fam_recordings(ctx, rng):
             obj.valid_window_boolean_mask = obj.valid_peak_boolean_mask = m
             steps = steps + [["both masks bound to one array", m.astype(int).tolist()]]
             ctx.count("states_with_both_masks_bound_to_one_array")
+        elif rng.random() < 0.35 and (~np.asarray(obj.valid_window_boolean_mask, bool)).any():
+            # the analyst takes a rejected window's CURVE back into the mean curve and leaves its peak out of the resonance
+            # statistics (the two masks are separate public attributes): window accepted, its existing peak rejected
+            k = int(rng.choice(np.flatnonzero(~np.asarray(obj.valid_window_boolean_mask, bool))))
+            obj.valid_window_boolean_mask[k] = True
+            steps = steps + [["curve re-accepted, peak left rejected", k]]
+            ctx.count("states_with_an_accepted_window_whose_peak_is_rejected")
         battery(ctx, rng, obj, "traditional", steps, recs=recs, force=["prepost", "3c"] + (["table"] if rng.random() < 0.5 else []))
     finally:
         close_figures()
